@@ -160,8 +160,33 @@ def gen_c13(tier, rng):
     s += gen_lag_sweep(tier, rng, "s", mode=lambda r: "rand %d %d" % (scale(tier, 12, 60), r.randint(1, 1 << 30)), pats=ipats)
     return s
 
+def gen_exhaustive_seq(tier, kind, prefix):
+    """bounded-exhaustive single-goroutine scripts: EVERY sequence over the alphabet up to the bound (values are fresh
+    per Offer), on an empty queue and on one holding two elements"""
+    import itertools
+    alpha = ["o", "p", "k", "e", "z"] + (["i", "n", "r"] if kind == "jdk" else [])
+    maxlen = scale(tier, 4, 5) if kind == "jdk" else scale(tier, 5, 6)
+    out, n = [], 0
+    for L in range(1, maxlen + 1):
+        for seq in itertools.product(alpha, repeat=L):
+            if kind == "jdk" and ("n" in seq or "r" in seq) and "i" not in seq:
+                continue            # Next / Remove without an iterator do nothing interesting
+            for pre in ([], [1, 2]):
+                v, ops = max([0] + pre), []
+                for o in seq:
+                    if o == "o":
+                        v += 1
+                        ops.append("o%d" % v)
+                    else:
+                        ops.append(o)
+                out.append(conc.Scn("%s%d" % (prefix, n), kind, pre, [ops], "dfs 0 1"))
+                n += 1
+    return out
+
 def gen_c15(tier, rng):
     s = []
+    s += gen_exhaustive_seq(tier, "jdk", "xj")
+    s += gen_exhaustive_seq(tier, "mutex", "xm")
     seq = ["o", "o", "o0", "p", "p", "k", "e", "z", "i", "n", "n", "h", "r"]
     s += gen_family(rng, "a", "jdk", seq, scale(tier, 400, 6000), 1, [4, 8, 12, 20], "dfs 0 1", prefill_max=3)
     s += gen_family(rng, "m", "mutex", ["o", "o", "o0", "p", "p", "k", "e", "z"], scale(tier, 150, 2000), 1, [4, 8, 12], "dfs 0 1", prefill_max=3)
